@@ -59,6 +59,10 @@ def check(model: Model, rep: Report, tier: str):
     with rep.isolated():
         share_rule(rep, model, _yt, "C09.P15", "the parity every ancilla accumulates is that of ITS data neighbours: in the shipped gate-sequence tables every ancilla-data edge of every "
                    "parity group is played exactly once per round, on pairwise distinct qubits per step (= C17.Y2/Y3)")
+    from .c06 import u2 as _u2
+    with rep.isolated():
+        share_rule(rep, model, _u2, "C09.P17", "unrolling a block repeated n times yields exactly n copies, for every n (= C06.U2): the middle rounds of an experiment are one block "
+                   "repeated qec_cycles - 3 times, and a repeat() that is right for small n only loses whole rounds of long experiments")
     with rep.isolated():
         share_rule(rep, model, _u5, "C09.P14", "the unrolled circuit is exported with the counts in force after unrolling: nr_of_repetitions is computed on every read (= C06.U5); a "
                    "cached count makes the exporter repeat the already unrolled rounds again")
